@@ -562,7 +562,7 @@ def solve_stubbed(prob, method, stubs):
     try:
         with warnings.catch_warnings():
             warnings.simplefilter("ignore")
-            prob.solve(method=method)
+            stubs.last_solution = prob.solve(method=method)
         return "ok", list(stubs.calls)
     except Exception as ex:  # noqa: BLE001
         return "raise:" + type(ex).__name__, []
@@ -610,11 +610,27 @@ def run_problem_histories(rng, rep, n_hist, n_ops):
             # captured back-end inputs, stubbed
             stubs.install()
             try:
+                stubs.last_solution = None
                 o1, c1 = solve_stubbed(prob, method, stubs)
+                sol1 = _c13.solution_tuple(stubs.last_solution)
                 fresh, _, _ = build_problem(mk, cur)
+                stubs.last_solution = None
                 o2, c2 = solve_stubbed(fresh, method, stubs)
+                sol2 = _c13.solution_tuple(stubs.last_solution)
             finally:
                 stubs.uninstall()
+            # the constraints as the user can query them: violation / is_satisfied at a fixed point
+            probe = {v.name: 0.5 + 0.375 * i for i, v in enumerate(sorted(prob.variables, key=lambda v: v.name))}
+            try:
+                cq1 = [(round(c.violation(probe), 12), c.is_satisfied(probe)) for c in prob.constraints]
+                cq2 = [(round(c.violation(probe), 12), c.is_satisfied(probe)) for c in fresh.constraints]
+            except Exception as ex:  # noqa: BLE001
+                cq1, cq2 = ["raise:" + type(ex).__name__], []
+            if cq1 != cq2:
+                rep.oracle_failures.append({"what": "Constraint.violation / is_satisfied differ from the fresh constant model",
+                                            "recipe": tag, "problem_history": hist[:], "params_now": cur, "got": str(cq1)[:200],
+                                            "fresh_constant_model": str(cq2)[:200]})
+                continue
             if did_set:
                 rep.nontrivial.add(("problem", tag, h, len(hist)))
             bad = None
@@ -643,6 +659,15 @@ def run_problem_histories(rng, rep, n_hist, n_ops):
                     if d is not None:
                         bad = d
                         break
+            same_route = o1 == o2 == "ok" and [c["method"] for c in c1] == [c["method"] for c in c2] and \
+                [c["backend"] for c in c1] == [c["backend"] for c in c2]
+            if not bad and same_route and sol1 is not None and sol2 is not None:
+                ok_sol = sol1[0] == sol2[0] and sol1[3] == sol2[3] and len(sol1[2]) == len(sol2[2]) and \
+                    all(a[0] == b[0] and abs(a[1] - b[1]) <= 1e-9 for a, b in zip(sol1[2], sol2[2])) and \
+                    (sol1[1] == sol2[1] or (sol1[1] is not None and sol2[1] is not None and
+                                            (abs(sol1[1] - sol2[1]) <= 1e-9 * (1 + abs(sol2[1])) or sol1[1] != sol1[1])))
+                if not ok_sol:
+                    bad = f"Solution {sol1} vs {sol2}"[:400]
             if bad:
                 rep.oracle_failures.append({"what": "solver input differs from the fresh constant model: " + bad, "recipe": tag,
                                             "problem_history": hist[:], "params_now": cur})
@@ -828,6 +853,36 @@ def run(ctx) -> core.Report:
 def search(ctx, rep):
     rng = core.Rng(ctx["seed"] + 32452843)
     tmp = core.Report()
+    # first: the cases on which model and implementation disagreed — rebuilt and driven through every history pattern, every
+    # pair of initial values incl. 0 / 1, many points, against the fresh-constant-model oracle
+    recipes = dict(cell_recipes())
+    inits = [(1.5, -0.5), (0.0, 1.0), (1.0, 0.0), (0.0, 0.0), (1.0, 1.0), (-2.0, 3.0)]
+    seen = set()
+    for mm in rep.corr_mismatches[:60]:
+        tag, seed = mm.get("case"), mm.get("seed")
+        if tag is None or (tag, seed) in seen:
+            continue
+        seen.add((tag, seed))
+        for init in inits:
+            for pat in ("derive-first", "to01-then-derive", "random", "extreme"):
+                for vparam in (False, True):
+                    if tag in recipes:
+                        c = Case(tag, "cell", mk=recipes[tag], init=init, pattern=pat, vparam=vparam)
+                    elif seed is not None:
+                        c = Case(tag, "rand", seed=seed, depth=3, vector_nodes=(tag == "rand-vector"), init=init, pattern=pat)
+                    else:
+                        continue
+                    for _ in range(3):
+                        run_expression_case(c, rng, tmp, lean_ok=False, n_ops=rng.randint(4, 14))
+                        if tmp.oracle_failures:
+                            return tmp.oracle_failures[0]
+    # then the Parameter × vector-shape family around every placement
+    for stag, shape in vector_shapes():
+        for ptag, place in placements():
+            c = Case(f"vec:{stag}:{ptag}", "vec", mk=(shape, place), init=rng.choice(inits), pattern="derive-first")
+            run_expression_case(c, rng, tmp, lean_ok=False, n_ops=3)
+            if tmp.oracle_failures:
+                return tmp.oracle_failures[0]
     for i in range(3000):
         c = Case("rand", "rand", seed=rng.randint(0, 10**9), depth=rng.randint(1, 4), vector_nodes=(i % 2 == 0),
                  init=(rng.choice(PV), rng.choice(PV)), pattern=rng.choice(["random", "derive-first", "to01-then-derive"]))
